@@ -616,6 +616,123 @@ def expr_totality(rep: C.Report, quick: bool) -> None:
         rep.add(C.Ob("Ob2b #expr operators", "E1 CrossHair", [], "", verdict=C.NOT_ENCODABLE, detail=f"{type(e).__name__}: {e}"))
 
 
+BIGN = 5000  # CPython refuses str -> int conversion above 4300 digits (sys.int_info.default_max_str_digits)
+
+
+def _big(doc: str) -> str:
+    return doc.replace("<N>", "9" * BIGN)
+
+
+def _big_sig(doc: str) -> str:
+    parts = doc.split("<N>")
+    return "expand(" + (" + '9' * %d + " % BIGN).join(repr(x) for x in parts) + ")"
+
+
+def int_conversions(rep: C.Report) -> None:
+    """Ob8: every int(<text>) applied to argument text is either inside a handler for ValueError or bounded in length.
+    CPython raises ValueError for decimal strings of more than 4300 digits, so `s.isdecimal()` does NOT make `int(s)` total.
+    AST dominance fact over parserfns.py / core.py / luaexec.py / parser.py; unguarded sites are replayed through expand() with a
+    5000-digit numeral at every argument position of every live parser function and in argument names; each input that makes
+    expand() raise is a violation (matched one by one against the known-findings file)."""
+    import ast as _ast
+
+    ob = rep.add(C.Ob("Ob8 integer conversions of argument text cannot raise (numerals beyond CPython's 4300-digit limit)", "E3 AST dominance + replay", ["parserfns.py", "core.py:Wtp.expand", "luaexec.py:make_frame", "parser.py:TemplateNode.template_parameters"], "every int(<name/subscript/call>) call in the four modules; replay: 5000-digit numeral at argument positions 0..3 of every live parser function, in template/parameter/#invoke argument names"))
+    try:
+        sites = []
+        for mod in ("parserfns.py", "core.py", "luaexec.py", "parser.py"):
+            tree = _ast.parse(open(os.path.join(C.SRC, mod)).read())
+            parents = {}
+            for n in _ast.walk(tree):
+                for c in _ast.iter_child_nodes(n):
+                    parents[c] = n
+            for n in _ast.walk(tree):
+                if not (isinstance(n, _ast.Call) and isinstance(n.func, _ast.Name) and n.func.id == "int" and len(n.args) == 1):
+                    continue
+                a = n.args[0]
+                if not isinstance(a, (_ast.Name, _ast.Subscript, _ast.Call, _ast.Attribute)):
+                    continue  # comparisons, boolean / arithmetic results: not text
+                if isinstance(a, _ast.Call) and isinstance(a.func, _ast.Attribute) and a.func.attr in ("timestamp", "floor", "ceil"):
+                    continue
+                guarded, in_lambda, q = False, False, n
+                while q in parents:
+                    q2 = parents[q]
+                    if isinstance(q2, _ast.Lambda):
+                        in_lambda = True
+                    if isinstance(q2, _ast.Try) and q in q2.body:
+                        for h in q2.handlers:
+                            names = [] if h.type is None else [e.id for e in _ast.walk(h.type) if isinstance(e, _ast.Name)]
+                            if h.type is None or any(x in ("ValueError", "Exception", "ArithmeticError") and x != "ArithmeticError" for x in names):
+                                guarded = True
+                    q = q2
+                if in_lambda:
+                    continue  # operator tables: arguments are numbers
+                sites.append((mod, n.lineno, _ast.unparse(a)[:30], guarded))
+        unguarded = [x for x in sites if not x[3]]
+        ob.conditions = len(sites)
+        ob.confirmed_conditions = len(sites) - len(unguarded)
+        ob.queries = ob.paths = len(sites)
+        ob.samples.append({"int_of_text_sites": len(sites), "unguarded": [f"{m}:{ln} int({a})" for m, ln, a, _ in unguarded]})
+        if not unguarded:
+            ob.verdict = C.DISCHARGED
+            return
+        # replay
+        import wikitextprocessor.parserfns as P
+        from vf.wtpfix import close, new_ctx
+
+        docs = []
+        fns, _excl = distinct_functions()
+        names = [n for n, _ in fns] + ["#time", "#dateformat"]
+        for name in names:
+            sep = "|" if name.startswith("#") or True else ":"
+            for pos in range(4):
+                args = ["x"] * pos + ["<N>"]
+                docs.append("{{" + name + ":" + "|".join(args) + "}}")
+        docs += ["{{t|<N>=x}}", "{{{<N>|d}}}", "{{u|a}}", "{{#invoke:m|f|<N>=x}}", "{{t|<N>}}", "{{#if:<N>|a|b}}"]
+        w = new_ctx(templates={"t": "[{{{1|}}}]", "u": _big("{{{<N>|d}}}")}, modules={"m": "local p = {}\nfunction p.f(frame) return tostring(frame.args[1]) end\nreturn p"})
+        hits = []
+        import signal
+
+        def _alarm(sig, frm):
+            raise TimeoutError("replay budget")
+
+        old = signal.signal(signal.SIGALRM, _alarm)
+        try:
+            for d in docs:
+                w.start_page("T")
+                signal.alarm(10)
+                try:
+                    w.expand(_big(d))
+                except TimeoutError:
+                    pass
+                except Exception as e:  # noqa: BLE001
+                    if "4300" in str(e) or isinstance(e, ValueError):
+                        hits.append((d, f"{type(e).__name__}: {str(e)[:70]}"))
+                    w.expand_stack = []
+                finally:
+                    signal.alarm(0)
+            # the parsed node's own view of the argument names
+            w.start_page("T")
+            try:
+                for n in w.parse(_big("{{t|<N>=x}}")).children:
+                    getattr(n, "template_parameters", None)
+            except Exception as e:  # noqa: BLE001
+                hits.append(("parse:{{t|<N>=x}}.template_parameters", f"{type(e).__name__}: {str(e)[:70]}"))
+        finally:
+            signal.signal(signal.SIGALRM, old)
+            close(w)
+        vs = []
+        for d, what in hits:
+            sig = "expand('{{u|a}}') with Template:u = '{{{' + '9' * %d + '|d}}}'" % BIGN if d == "{{u|a}}" else _big_sig(d) if not d.startswith("parse:") else "parse(" + _big_sig(d[6:].replace(".template_parameters", ""))[7:] + ".children[0].template_parameters"
+            vs.append(rep.violation(sig, f"raises {what}", {"doc": d, "digits": BIGN}))
+        ob.samples.append({"replayed_documents": len(docs) + 1, "raising": len(hits)})
+        if vs:
+            ob.verdict = C.VIOLATED if any(v.known is None for v in vs) else C.KNOWN
+        else:
+            ob.detail = f"{len(unguarded)} unguarded int() sites but none of {len(docs)} documents with a {BIGN}-digit numeral makes expand() raise -> inconclusive"
+    except Exception as e:  # noqa: BLE001
+        ob.detail += f"{type(e).__name__}: {e}"
+
+
 def run(rep: C.Report) -> None:
     quick = C.tier() == "quick"
     rep.explanation = "Parser-function totality: every distinct implementation in the live PARSER_FUNCTIONS table is called through call_parser_function with 0..3(4) symbolic string arguments (full Unicode, bounded length) and an identity expander, and once with an arbitrary expander (each expansion result a fresh symbolic string); any exception or non-str result is a counterexample, replayed through Wtp.expand or a direct call. Loop detector and depth guard are decided separately."
@@ -642,6 +759,7 @@ def run(rep: C.Report) -> None:
 
     expr_totality(rep, quick)
     namespace_index(rep)
+    int_conversions(rep)
     depth_guard(rep)
     loop_check_order(rep)
     try:
